@@ -206,7 +206,7 @@ PROPS['C01'] = dict(
                 'serialising a node and reading it back through the real pointer code yields the same entries (K2, BOUNDED, thorough tier); the documented-misuse panic on a deleted bucket is the only '
                 'precondition of the bucket mutators (G1).',
     level_text='Proved leaf-level operations plus bounded codec; the property\'s quantifier over whole histories is NOT decided.',
-    level_note='Per-call clauses are proved for InnerBucket::{get, delete, put_leaf, delete_bucket, bucket_getter} over an assumed tree interface (error kinds, counters, error-changes-nothing) and for the key type Bytes (ordered as byte strings). '
+    level_note='Per-call clauses are proved for InnerBucket::{get, put, delete, put_leaf, delete_bucket, bucket_getter} over an assumed tree interface (the value or error kind a reference map returns, counters, error-changes-nothing, no panic) and for the key type Bytes (ordered as byte strings). '
                'merge_nodes, spill, root collapse and nested-bucket propagation work on an Rc<RefCell<Node>> graph and are out of reach of both verifiers; the shape-dependent commit panics named in the property text (found as E9, E11, E12 and repaired) are guarded by the bounded oracles and reproductions only.',
     assumptions=[A_TOOLS, A_ARITH, A_TREEIF, A_ELEMS, 'RefCell stand-in', 'byte-string order is a strict total order'],
     not_covered=['deductively: every history-level clause of the statement (commit/reopen equivalence with a reference nested map across transactions); these are exercised only by the BOUNDED history oracle cex/history.rs that runs on every check', 'rebalance / spill / merge / root collapse (InnerBucket::merge_nodes, Node::spill/split): bounded oracles and reproductions e9, e11, e12 only'],
